@@ -51,6 +51,10 @@ def run(ctx):
     RR = anchors.result_recorder(prog)
     fcl = {cl.key for _, _, cl in anchors.fork_closures(prog)}
     reach = ctx.cg.reachable([J.key, RR.key], stop=frozenset(fcl), indirect=False)
+    roles = recorder_roles(prog, R, SS, J, RR)
+    ctx.ob("R4.1", "%s|target-and-temp-path-reach-the-recorder" % R.key, bool(roles["t"]) and bool(roles["tmp"]), where=R.span,
+           detail="record_new_state receives the target path as %s and the temp path as %s" % (sorted(roles["t"]), sorted(roles["tmp"])) if roles["t"] and roles["tmp"] else
+           "cannot follow the target path / temp path from start_self through the recorder coroutine into record_new_state")
     # target-path sources per body
     n_mut = 0
     target_mut = []
@@ -64,7 +68,7 @@ def run(ctx):
         muts = [i for i in ba.all_calls() if is_mutator_call(b.blocks[i]["term"])]
         if not muts:
             continue
-        tnt = target_taint(prog, b, R, SS, J, RR)
+        tnt = target_taint(prog, b, R, SS, J, RR, roles)
         for i in muts:
             t = b.blocks[i]["term"]
             n_mut += 1
@@ -84,7 +88,7 @@ def run(ctx):
            detail="the target is replaced by rename(tmp, t) and removed by unlink(t) when no output was produced")
     # rename source is the temp path (param), copy destination derives from File::create(tmp)
     ren = rba.calls(r"std::fs::rename")
-    tmp_t = taint(R, seeds={6}, mode="direct")
+    tmp_t = common.role_taint(R, roles["tmp"], mode="direct")
     if ren:
         a0 = op_local(R.blocks[ren[0]]["term"]["args"][0])
         ok = a0 in tmp_t or any(x in tmp_t for x in rba.ref_chain(a0))
@@ -205,12 +209,81 @@ def const_assign_blocks(body, value):
     return out
 
 
-def target_taint(prog, b, R, SS, J, RR):
+def tmp_name_sources(prog, SS):
+    """start_self locals holding the temp-output path: what the unlink that precedes the fork removes
+    (role query: `helpers::unlink(x)` on every path to the fork), followed back to where the path is computed
+    and forward again through every direct alias."""
+    sba = BA.of(SS)
+    forks = sba.calls(anchors.FORK_START)
+    seeds = set()
+    for u in sba.calls_deep(r"helpers::unlink", prog):
+        if not forks or not any(sba.dominates(u, f) for f in forks):
+            continue
+        a = op_local(SS.blocks[u]["term"]["args"][0])
+        if a is None:
+            continue
+        seeds |= set(sba.ref_chain(a)) | backward_direct(SS, a, depth=40)[0]
+    seeds = {l for l in seeds if l > SS.arg_count}
+    return taint(SS, seeds=seeds, mode="direct") if seeds else set()
+
+
+def recorder_roles(prog, R, SS, J, RR):
+    """Which parameters (or fields of a parameter struct) of record_new_state carry which value, decided by
+    following the values themselves: start_self local -> variable captured by the recorder coroutine -> operand
+    of the record_new_state call -> parameter. No parameter positions, no variable names.
+      't'        the target path (BuildJob.t)
+      'tmp'      the temp-output path start_self removes before the fork
+      'before_t' the stat BuildJob::start takes before the verdict and hands to start_self
+    Each value is {(param_no, field_prefix)} (see common.call_arg_roles); empty when the chain is broken."""
+    sba, jba, rrba = BA.of(SS), BA.of(J), BA.of(RR)
+    src = {}
+    src["t"] = taint(SS, src_place=lambda p: place_fields(p)[-1:] == ["builder::BuildJob.t"], mode="direct")
+    src["tmp"] = tmp_name_sources(prog, SS)
+    # before_t: the pre-verdict stat in the dispatcher -> start_self parameter
+    P1 = set()
+    stats = pre_verdict_stats(prog, J)
+    if stats:
+        tl = taint(J, seeds={J.blocks[i]["term"]["dest"]["l"] for i in stats}, mode="direct")
+        per_site = [common.call_arg_roles(J, c, common.in_set(J, tl)) for c in jba.calls(re.escape(SS.key))]
+        if per_site and all(per_site):
+            P1 = set.intersection(*per_site)
+    src["before_t"] = common.role_taint(SS, P1, mode="direct")
+    out = {"_ss_params_before_t": P1}
+    rn = rrba.calls(re.escape(R.key))
+    for role, tset in src.items():
+        ups = common.upvars_bound_to(SS, RR.key, common.in_set(SS, tset)) if tset else set()
+        out["_up_" + role] = ups
+        rt = common.upvar_taint(RR, ups, mode="direct")
+        roles = None
+        for c in rn:
+            r = common.call_arg_roles(RR, c, common.in_set(RR, rt)) if rt else set()
+            roles = r if roles is None else (roles & r)
+        out[role] = roles or set()
+    return out
+
+
+def pre_verdict_stats(prog, J):
+    """Calls in the dispatcher that stat (lstat) the target itself: `symlink_metadata`, directly or through a
+    local wrapper (today builder::try_stat), on a path that is a direct alias of BuildJob.t."""
+    jba = BA.of(J)
+    t_t = taint(J, src_place=lambda p: place_fields(p)[-1:] == ["builder::BuildJob.t"], mode="direct", through=re.compile(r"std::path::Path::new"))
+    ok = common.in_set(J, t_t)
+    out = []
+    for i in jba.calls_deep(r"std::path::Path::symlink_metadata|std::fs::symlink_metadata", prog):
+        t = J.blocks[i]["term"]
+        if any(ok(op_local(a)) or bool(backward_direct(J, op_local(a))[0] & t_t) for a in t["args"] if op_local(a) is not None):
+            out.append(i)
+    return out
+
+
+def target_taint(prog, b, R, SS, J, RR, roles=None):
     """Locals of `b` that are (direct aliases of) the target path."""
+    if roles is None:
+        roles = recorder_roles(prog, R, SS, J, RR)
     if b.key == R.key:
-        return taint(b, seeds={2}, mode="direct")
+        return common.role_taint(b, roles["t"], mode="direct")
     if b.key in (SS.key, J.key) or b.key == "builder::BuildJob::start_deps_unlocked":
         return taint(b, src_place=lambda p: place_fields(p)[-1:] == ["builder::BuildJob.t"], mode="direct")
     if b.key == RR.key:
-        return taint(b, src_place=lambda p: (upvar_index(p) or (None, None))[1] == "t", mode="direct")
+        return common.upvar_taint(b, roles["_up_t"], mode="direct")
     return set()
